@@ -276,8 +276,15 @@ static void run_case(int k, const Case& cs)
             treats.push_back(tr);
         }
     }
-    if (with_pht)
+    // `tables direct`: the caller fills the pest-host table itself (add_host_info) and leaves
+    // Config's table data empty; Config's own mortality parameters are then inputs nobody reads
+    bool direct_tables = !get(cs, "tables").empty() && T("tables", 0) == "direct";
+    if (with_pht && !direct_tables)
         config.read_pest_host_table(pht_rows);
+    if (direct_tables) {
+        config.mortality_rate = 1.0;
+        config.mortality_time_lag = 0;
+    }
     if (!comp_rows.empty())
         config.read_competency_table(comp_rows);
 
@@ -429,7 +436,13 @@ static void run_case(int k, const Case& cs)
         if (cs.entry == "pools") {
             multi.reset(new TModel::StandardMultiHostPool(pool_ptrs, config));
             if (with_pht) {
-                pht.reset(new PestHostTable<TModel::StandardSingleHostPool>(config, model->environment()));
+                if (direct_tables) {
+                    pht.reset(new PestHostTable<TModel::StandardSingleHostPool>(model->environment()));
+                    for (auto& row : pht_rows)
+                        pht->add_host_info(row.at(0), row.at(1), (int)row.at(2));
+                }
+                else
+                    pht.reset(new PestHostTable<TModel::StandardSingleHostPool>(config, model->environment()));
                 multi->set_pest_host_table(*pht);
             }
             if (!comp_rows.empty()) {
